@@ -18,6 +18,7 @@ func (w *World) Construct(cfg setec.StoreConfig) bool {
 	w.Spawn("ctor", func(*kernel.Task) {
 		var st *setec.Store
 		st, err = setec.NewStore(ctx, cfg)
+		w.Gate()
 		if st != nil {
 			w.Store = st
 		}
